@@ -496,6 +496,7 @@ func (g *Gen) inlineBody(st *State, f *ssa.Function, args []Val) *Val {
 	sub.writes = map[*ssa.BasicBlock]map[string]bool{}
 	sub.lwrites = map[*ssa.BasicBlock]map[*ssa.Alloc]bool{}
 	sub.starW = map[*ssa.BasicBlock]bool{}
+	sub.partialStar = map[*ssa.BasicBlock]bool{}
 	sub.reset()
 	sub.Defs = g.Defs
 	sub.defSeen = g.defSeen
